@@ -22,6 +22,8 @@ fn base(t: &str) -> String {
 struct Canon {
     /// (source name, canonical name = `$<binding depth>`), innermost last
     env: Vec<(String, String)>,
+    /// locals of the body bound by a leading `let` (also a tuple of them): name -> canonical text of what it is
+    subst: Vec<(String, String)>,
 }
 
 impl Canon {
@@ -93,6 +95,11 @@ impl Canon {
                         return c.clone();
                     }
                 }
+                for (src, c) in self.subst.iter().rev() {
+                    if *src == id {
+                        return c.clone();
+                    }
+                }
                 id
             }
             Expr::Reference(r) => format!("&{}", self.expr(&r.expr)),
@@ -129,11 +136,30 @@ impl Canon {
                     return self.opt_true(&m.receiver, &m.args[0]);
                 }
                 let r = self.expr(&m.receiver);
+                // a vector compared as a slice is the vector compared
+                if name == "as_slice" && m.args.is_empty() {
+                    return r;
+                }
                 let args: Vec<String> = m.args.iter().map(|a| self.expr(a)).collect();
                 format!("{r}.{name}({})", args.join(","))
             }
             Expr::Call(c) => {
                 let f = squash(&toks(&*c.func));
+                // `PartialEq::eq(&a, &b)` is `a == b`
+                if matches!(f.as_str(), "PartialEq::eq" | "core::cmp::PartialEq::eq" | "std::cmp::PartialEq::eq") && c.args.len() == 2 {
+                    let strip = |x: &Expr| -> Expr {
+                        match x {
+                            Expr::Reference(r) => (*r.expr).clone(),
+                            o => o.clone(),
+                        }
+                    };
+                    let mut l = self.expr(&strip(&c.args[0]));
+                    let mut r = self.expr(&strip(&c.args[1]));
+                    if r < l {
+                        std::mem::swap(&mut l, &mut r);
+                    }
+                    return format!("eq({l},{r})");
+                }
                 let args: Vec<String> = c.args.iter().map(|a| self.expr(a)).collect();
                 format!("{f}({})", args.join(","))
             }
@@ -143,10 +169,64 @@ impl Canon {
 }
 
 fn canon_body(block: &syn::Block) -> String {
-    let mut c = Canon { env: Vec::new() };
+    let mut c = Canon { env: Vec::new(), subst: Vec::new() };
     if block.stmts.len() == 1 {
         if let syn::Stmt::Expr(x, None) = &block.stmts[0] {
             return c.expr(x);
+        }
+    }
+    // leading `let x = &a;` / `let (x, y) = (&a, &b);` (references to fields, nothing else), then one expression
+    if block.stmts.len() >= 2 {
+        let (lets, last) = block.stmts.split_at(block.stmts.len() - 1);
+        let mut ok = true;
+        for st in lets {
+            let syn::Stmt::Local(l) = st else { ok = false; break };
+            let Some(init) = &l.init else { ok = false; break };
+            if init.diverge.is_some() {
+                ok = false;
+                break;
+            }
+            let pat = match &l.pat {
+                Pat::Type(t) => &*t.pat,
+                p => p,
+            };
+            let strip = |x: &Expr| -> Expr {
+                match x {
+                    Expr::Reference(r) => (*r.expr).clone(),
+                    o => o.clone(),
+                }
+            };
+            let plain = |t: &str| t.chars().all(|ch| ch.is_alphanumeric() || ch == '_' || ch == '.');
+            match (pat, &*init.expr) {
+                (Pat::Ident(pi), e) => {
+                    let t = c.expr(&strip(e));
+                    if !plain(&t) {
+                        ok = false;
+                        break;
+                    }
+                    c.subst.push((pi.ident.to_string(), t));
+                }
+                (Pat::Tuple(pt), Expr::Tuple(et)) if pt.elems.len() == et.elems.len() => {
+                    for (p, e) in pt.elems.iter().zip(et.elems.iter()) {
+                        let Pat::Ident(pi) = p else { ok = false; break };
+                        let t = c.expr(&strip(e));
+                        if !plain(&t) {
+                            ok = false;
+                            break;
+                        }
+                        c.subst.push((pi.ident.to_string(), t));
+                    }
+                }
+                _ => {
+                    ok = false;
+                    break;
+                }
+            }
+        }
+        if ok {
+            if let syn::Stmt::Expr(x, None) = &last[0] {
+                return c.expr(x);
+            }
         }
     }
     squash(&toks(block))
